@@ -387,9 +387,18 @@ func (x *G) block(tag string, depth int, inForm bool) *Node {
 				if x.chance("rowws", 3) {
 					sec.Kids = append(sec.Kids, x.wsText())
 				}
+				if x.chance("rowcomment", 8) {
+					x.Feats["comment-between-table-rows"]++
+					sec.Kids = append(sec.Kids, &Node{Tag: "!", Text: " r "})
+				}
 				sec.Kids = append(sec.Kids, tr)
 			}
 			el.Kids = append(el.Kids, sec)
+			if x.chance("seccomment", 4) {
+				// a comment between two sections: with comments kept it stands between an end tag and what would re-open the section
+				x.Feats["comment-between-table-sections"]++
+				el.Kids = append(el.Kids, &Node{Tag: "!", Text: x.pick("seccommenttext", []string{" rows ", "c", ""})})
+			}
 			if x.chance("secws", 3) {
 				el.Kids = append(el.Kids, x.wsText())
 			}
